@@ -826,6 +826,13 @@ func hostPath(v Val) bool {
 		return x.HostPath
 	case Iface:
 		return hostPath(x.V)
+	case Slice:
+		// a variadic argument list: tainted if any element is
+		for _, c := range x.E {
+			if hostPath(c.Get()) {
+				return true
+			}
+		}
 	}
 	return false
 }
